@@ -441,11 +441,11 @@ Proof.
 Qed.
 
 (** DeleteRange, whatever branch it takes *)
-Theorem delete_range_steps s script nh from to : okst s ->
-  steps dinv s (fst (fst (delete_range s script nh from to))) /\
-  okst (fst (fst (delete_range s script nh from to))).
+Theorem delete_range_synced_steps s script nh from to : okst s ->
+  steps dinv s (fst (fst (delete_range_synced s script nh from to))) /\
+  okst (fst (fst (delete_range_synced s script nh from to))).
 Proof.
-  intros O. unfold delete_range.
+  intros O. unfold delete_range_synced.
   destruct (headp s) as [hd|] eqn:Ehd; [|cbn; apply ok_refl; auto].
   destruct (tailp s) as [tl|] eqn:Etl; [|cbn; apply ok_refl; auto]. cbv zeta.
   destruct (to <=? from); [cbn; apply ok_refl; auto|].
